@@ -1,5 +1,5 @@
 //! C05 No command history can hang the engine.
-use super::searchlib::gen_game;
+use super::searchlib::gen_game_opts;
 use super::ucilib::*;
 use crate::framework::*;
 use proptest::strategy::Strategy;
@@ -58,7 +58,7 @@ fn from_tape(data: &[u16]) -> (String, Vec<Step>) {
         let step = match t.pick(20) {
             0 | 1 => Step { cmd: "isready".into(), timing: if t.pick(2) == 0 { Timing::Batch } else { timing(&mut t) } },
             2 | 3 | 4 => Step { cmd: "ucinewgame".into(), timing: timing(&mut t) },
-            5 | 6 => match gen_game(&mut t, 2, 6) {
+            5 | 6 => match gen_game_opts(&mut t, 2, 6, false) {
                 Some((fen, moves, _, _)) => Step { cmd: if moves.is_empty() { format!("position fen {fen}") } else { format!("position fen {fen} moves {}", moves.join(" ")) }, timing: timing(&mut t) },
                 None => continue,
             },
